@@ -106,7 +106,10 @@ Definition read_data_by_identifier_first (cfg : config) (st : cstate) (l : list 
                        | d0 :: _ => match lookup d0 v with Some x => VALUE_MARK :: enc_bytes x | None => [VALUE_MARK; -1] end
                        | [] => [VALUE_MARK; -1]
                        end)) no_post now s in
-    (res, st', t, s', tr)
+    (match res with
+     | COk (Some (_, [_; -1])) => COk None      (* no value to return *)
+     | x => x
+     end, st', t, s', tr)
   end.
 
 Definition test_data_identifier (cfg : config) (st : cstate) (l : list Z) (now : Z) (s : sched) : fres :=
